@@ -329,6 +329,11 @@ fn one_pass<T: Sc, F: Factory<T>>(sc: &Scenario, rep: &mut RunReport, first: boo
                     }
                 }
             }
+            Op::IntoSequential => {
+                // the Jacobian is computed by another implementation from here on: equality
+                // across the conversion is C11's subject (toleranced), not a re-query
+                prev_jac = None;
+            }
             Op::CloneAndCompare => {
                 if let Extra::Clone { snap: cs, jac, orig_jac } = &st.extra {
                     if cs != snap_now || (!faulted && jac != orig_jac) {
